@@ -57,7 +57,7 @@ Up(d, X, P, c) ==
       leaf == chain[Len(chain)]
       val == WithConstants(d, X, c)
       pl0 == IF HasPayload(leaf) /\ Has(c, "payload") THEN Get(c, "payload").b ELSE <<>>
-      below == EncLevels(d, chain, Len(chain), kp + 1, val, pl0, EmptyFn, 5)
+      below == EncLevels(d, chain, Len(chain), kp + 1, val, pl0, <<>>, EmptyFn, 5)
       pf == ValueFields(d, P)
       names == [k \in 1..Len(pf) |-> pf[k].decl.fields[pf[k].i].id]
       items == [k \in 1..Len(pf) |-> IF Has(val, names[k]) THEN Get(val, names[k]) ELSE NoneV]
